@@ -100,7 +100,7 @@ func Project(nodes []*html.Node, o Options) []El {
 			if !(o.RawText && rawText[parent]) {
 				t = NormText(t)
 			}
-			if strings.TrimSpace(t) == "" {
+			if strings.TrimFunc(t, IsHTMLSpace) == "" {
 				return
 			}
 			// merge adjacent text runs
@@ -127,7 +127,13 @@ func Project(nodes []*html.Node, o Options) []El {
 }
 
 // NormText collapses whitespace runs and trims.
-func NormText(s string) string { return strings.Join(strings.Fields(s), " ") }
+func NormText(s string) string { return strings.Join(strings.FieldsFunc(s, IsHTMLSpace), " ") }
+
+// IsHTMLSpace: ASCII whitespace as defined by HTML. U+00A0 (&nbsp;) and other Unicode spaces
+// are ordinary characters.
+func IsHTMLSpace(r rune) bool {
+	return r == ' ' || r == '\t' || r == '\n' || r == '\r' || r == '\f'
+}
 
 // Skeleton is the elements-and-attribute-names projection as one string.
 func Skeleton(nodes []*html.Node) string {
